@@ -80,6 +80,20 @@ CLAIMS = {
         technique="TLA+ object machine (SDSConv) - all histories of enable_* / serialize+load calls generated by TLC and paired with every content; files without support structures from the document-derived encoder; skip_option positions validated by TLC",
         text="TLC enumerates every history of depth 4 over enable_rank / enable_select / enable_select_zero / enable_pred_succ / serialize+load from a plain bitvector without supports (every subset reached in every order); for every content <= 6 bits (7) and a boundary family the harness checks after each call the reported subset, the bits, every enabled answer at every argument, equality and byte-identity with the directly built vector with the same subset, and finally that enabling the rest equals the fully enabled original. Sparse vectors, wavelet cores and wavelet matrices are loaded from files produced by tla/Format.tla in which the embedded bitvectors carry no support structures and must answer every query; skip_option over each optional support structure must land on the positions the document-derived decoder computes; absent_option writes one zero element.",
         design_ref="DESIGN.md section 6, C19"),
+    "C08": dict(
+        category="exploration",
+        technique="Call histories and arguments generated from the TLA+ specification (GenBV, GenIter transition cover, GenWM, GenVec, GenStream) executed on optimized builds with guarded bounds hooks at every unchecked index / raw-slice site; the invariant 'index < length' is evaluated on every hooked access; death by signal is a violation",
+        text="TLA+ does not observe memory, so this check is an exploration whose inputs come from the specification and whose monitor is the hook: every get_unchecked / from_raw_parts site named by the property (mask tables, portable select tables, RawVector / RawVectorMapper::word_unchecked, RankSupport::rank_unchecked, Vec<V>::load, MappedSlice/Bytes/Str::new) reports (site, index, length) before the access and, when the index is out of range, panics with a marker instead of performing it. The generated cases - every query with extreme arguments on all contents <= 7 bits, the boundary and multi-word families on all three bitvector types, the complete iterator transition cover incl. nth(huge), wavelet-matrix queries with values up to u64::MAX, vector histories, mapped views at and outside record starts and on truncated files, loads of every truncation of library-written bytes - run on release builds (overflow checks off) with and without BMI2; recorders on 2^17..2^19-bit vectors run on the release build and a signal death is a violation. About 1.9e8 hooked accesses per quick run; the run is vacuous (exit 2) if none was recorded.",
+        design_ref="DESIGN.md section 6, C08",
+        note="Only hooked sites are observed; undefined behaviour that is not an out-of-range index (aliasing, alignment) is invisible. Hooks compiled in with --cfg simple_sds_verif; rustc/cargo; the TLA+ generators."),
+    "C17": dict(
+        technique="TLA+ word algebra (mech/Words): implementation-shaped write_int/read_int (both branches, exact masks) and byte-wise select proved to refine the mathematical definitions by exhaustive TLC at W=4/W=8; at W=64 TLC-generated cases replayed on four build variants; random calls validated by TLC",
+        text="mech/Words.tla transcribes the case analysis of write_int / read_int (split_offset, one-word branch, two-word branch, the exact mask expressions) and of the portable select (cumulative byte popcounts, first byte exceeding the rank, in-byte select) over words of W bits; TLC checks exhaustively at W=4 (2- or 3-word arrays: every background, offset, width, value) and W=8 (every word and rank) that they refine the reference definitions, that a write followed by a read returns the value truncated to the width and that no other bit changes. At W=64 the reference definitions generate: offsets x widths 1..64 x 5 values x 3 backgrounds (19 offsets quick, all 192 thorough), every byte value in every lane alone and above full lower bytes plus single-bit / dense words for select with every rank, masks for n=0..64 (checked and unchecked), bit_len around every power of two, reverse_low for every width, the rounding helpers; replayed on debug and release builds with target-cpu=native (BMI2 PDEP path) and generic (portable select and its lookup tables). Random read/write/select calls are validated by TLC.",
+        design_ref="DESIGN.md section 6, C17"),
+    "C20": dict(
+        technique="TLA+ model of the counter protocol (mech/TempName) instantiated with the primitive program extracted from the real code through the traced counter; all interleavings model-checked; counterexample schedules replayed on the real code through gates; stress traces validated by TLC in linearization order",
+        text="The traced AtomicUsize (hook) logs which primitives one temp_file_name call performs; that program (currently <<fetch_add>>) is the constant of mech/TempName.tla, and TLC explores every interleaving of 3 threads x 2 calls and 2 x 3 (thorough also 4 x 2 and 3 x 3) checking Unique. If the program admits a duplicating schedule (e.g. <<load, store>>), TLC's schedule is replayed on the real code by gating each primitive, and the violation is reported only if two real calls return the same path. Stress runs of 8 x 500 (16 x 2000) calls on debug and release builds log every primitive under the lock that performs it; TLC validates that each is the next step of its thread's program on the model counter, that every returned path carries the value its call obtained, the caller's name part (parts containing '_' and digits) and the pid, and Unique in every state.",
+        design_ref="DESIGN.md section 6, C20"),
 }
 
 NOT_YET = {}
